@@ -3,7 +3,11 @@ package websocket
 // Overlay-only accessors (never part of /repo): read-only views and thin wrappers of unexported
 // functions for the correspondence harness cmd/wscodec and the GenWs.v dumper.
 
-import "io"
+import (
+	"io"
+	"reflect"
+	"unsafe"
+)
 
 // VerifValidFrame calls the real validFrame of a Conn whose enableCompression flag is as given.
 func VerifValidFrame(enableCompression bool, opcode int, fin, res1, res2, res3, expectingFragments bool) error {
@@ -34,7 +38,9 @@ func VerifWrapHandlers(u *Upgrader, ping, pong func(string), cls func(int, strin
 	u.closeMessageHandler = func(c *Conn, code int, s string) { cls(code, s); c0(c, code, s) }
 }
 
-// VerifState is the receiver state the model tracks.
+// VerifState is the receiver state the model tracks. The fields are read by NAME through reflection, so that a change
+// that renames or removes one of them does not stop the harness from building: it is reported in Missing (the state
+// comparison with the model is then a disagreement) and the implementation-side oracles keep running.
 type VerifState struct {
 	Cached     int
 	MessageNil bool
@@ -43,19 +49,51 @@ type VerifState struct {
 	Compress   bool
 	Expecting  bool
 	Closed     bool
+	Missing    []string
+}
+
+func verifField(c *Conn, name string) (reflect.Value, bool) {
+	f := reflect.ValueOf(c).Elem().FieldByName(name)
+	if !f.IsValid() {
+		return f, false
+	}
+	return reflect.NewAt(f.Type(), unsafe.Pointer(f.UnsafeAddr())).Elem(), true
 }
 
 func VerifGetState(c *Conn) VerifState {
 	c.mux.Lock()
 	defer c.mux.Unlock()
-	s := VerifState{MessageNil: c.message == nil, MsgType: int(c.msgType), Compress: c.compress,
-		Expecting: c.expectingFragments, Closed: c.closed}
-	if c.bytesCached != nil {
-		s.Cached = len(*c.bytesCached)
+	s := VerifState{MessageNil: true}
+	miss := func(n string) { s.Missing = append(s.Missing, n) }
+	pbuf := func(n string) (int, bool) { // a *[]byte field: (len, is nil)
+		f, ok := verifField(c, n)
+		if !ok || f.Kind() != reflect.Ptr {
+			miss(n)
+			return 0, true
+		}
+		if f.IsNil() {
+			return 0, true
+		}
+		return f.Elem().Len(), false
 	}
-	if c.message != nil {
-		s.MessageLen = len(*c.message)
+	boolf := func(n string) bool {
+		f, ok := verifField(c, n)
+		if !ok || f.Kind() != reflect.Bool {
+			miss(n)
+			return false
+		}
+		return f.Bool()
 	}
+	s.MessageLen, s.MessageNil = pbuf("message")
+	s.Cached, _ = pbuf("bytesCached")
+	if f, ok := verifField(c, "msgType"); ok && f.CanInt() {
+		s.MsgType = int(f.Int())
+	} else {
+		miss("msgType")
+	}
+	s.Compress = boolf("compress")
+	s.Expecting = boolf("expectingFragments")
+	s.Closed = boolf("closed")
 	return s
 }
 
